@@ -72,6 +72,15 @@ def cases(tier: str, seed: int) -> List[Dict[str, Any]]:
                 out.append({"family": fam, "unit_scale": us, "fmt": fmt, "final": final, "seed": seed, "freeze": True})
                 if len(([1] if us else []) + ([1] if fmt else []) + ([1] if final else [])) >= 2:
                     out.append({"family": fam, "unit_scale": us, "fmt": fmt, "final": final, "seed": seed, "train_between": True})
+        # dtype coordinate: a float64 / bfloat16 module (transforms copy first and never convert the module given)
+        for dt_ in ("float64", "bfloat16"):
+            for us in (False, True):
+                if (us and fam == "unit_layers") or (dt_ == "bfloat16" and (us or fam not in ("mlp", "unit_layers"))):
+                    continue
+                for fmt, final in (("fp8", None), ("e5m2rn", "track"), (None, "track")):
+                    if not us and fmt is None:
+                        continue
+                    out.append({"family": fam, "unit_scale": us, "fmt": fmt, "final": final, "seed": seed, "dtype": dt_})
         comp = ["mlp", "residual", "sequential_root"] if tier == "quick" else list(FAMILIES)
         if fam in comp:
             for us in (False, True):
@@ -106,8 +115,10 @@ def run_case(case: Dict[str, Any]) -> Dict[str, Any]:
     prog = dict(FAMILIES[fam], first="x")
     if case.get("freeze"):
         prog["freeze_first"] = True
+    if case.get("dtype"):
+        prog["dtype"] = case["dtype"]
     tset = (["unit_scale"] if us else []) + ([f"fmt:{fmt}"] if fmt else [])
-    ident = f"{fam}|set={'+'.join(tset) or 'none'}|final={final}" + ("|frozen_param" if case.get("freeze") else "")
+    ident = f"{fam}|set={'+'.join(tset) or 'none'}|final={final}" + ("|frozen_param" if case.get("freeze") else "") + (f"|dtype={case['dtype']}" if case.get("dtype") else "")
     viol: List[Dict[str, str]] = []
     steps = 0
 
@@ -263,7 +274,7 @@ def run_case(case: Dict[str, Any]) -> Dict[str, Any]:
                 if d:
                     viol.append({"key": ident + "|call_after_other_module_differs", "msg": f"{label}: {d}"})
                 g3 = torch.Generator().manual_seed(4242)
-                inp3 = tuple(torch.randn((3,) + tuple(a.shape[1:]), generator=g3) if a.is_floating_point() else a for a in inp)
+                inp3 = tuple(torch.randn((3,) + tuple(a.shape[1:]), generator=g3).to(a.dtype) if a.is_floating_point() else a for a in inp)
                 m3, _ = build(prog, case["seed"])
                 fresh = m3
                 for t in chain:
@@ -288,8 +299,12 @@ def run_case(case: Dict[str, Any]) -> Dict[str, Any]:
                         viol.append({"key": ident + "|intermediate_behaviour_changed", "msg": f"{label}: module after {i} transform(s): {d}"})
                     steps += 2
                 # ---- the original and every intermediate are untouched and share no storage
-                if any(not torch.equal(snap_state[k], v) for k, v in m.state_dict().items()):
+                if any(v.dtype != snap_state[k].dtype or not torch.equal(snap_state[k], v) for k, v in m.state_dict().items()):
                     viol.append({"key": ident + "|original_state_changed", "msg": label})
+                for i_, mm in enumerate(mods[1:], 1):
+                    if any(v.dtype != snap_state[k].dtype for k, v in mm.state_dict().items() if k in snap_state):
+                        viol.append({"key": ident + "|parameter_dtype_changed", "msg": f"{label}: module after {i_} transform(s)"})
+                        break
                 if any(p.grad is not None for p in m.parameters()):
                     viol.append({"key": ident + "|gradient_sent_to_original", "msg": label})
                 d = same(call(m, inp), snap_out)
